@@ -642,11 +642,11 @@ class Prop:
     def gen_cases(self, rng, tier):
         cases = []
         q = tier == 'quick'
-        for k in range(400 if q else 4000):
+        for k in range(250 if q else 2500):
             pre = [] if rng.random() < 0.7 else [rng.randrange(256) for _ in range(rng.randrange(1, 9))]
             ms = [gen_bmp_msg(rng) for _ in range(rng.randrange(1, 6))]
             cases.append({'kind': 'bmp', 'pre': pre, 'msgs': ms})
-        for k in range(8 if q else 60):
+        for k in range(5 if q else 60):
             cases.append({'kind': 'bmp', 'pre': [], 'msgs': [gen_bmp_msg(rng, big=True)] + ([gen_bmp_msg(rng)] if k % 2 else [])})
         # correspondence only (outside the property's quantifier): caller flags with the V bit,
         # message kinds the daemon never emits, TLV values of 65535..65537 bytes
@@ -657,10 +657,10 @@ class Prop:
         for ln in (65535, 65536, 65537):
             cases.append({'kind': 'bmp', 'pre': [], 'msgs': [[4, [[1, [-1, ln, 65]], [2, [7]]]]], 'api_only': 1})
         # ---- MRT BGP4MP
-        for k in range(250 if q else 2500):
+        for k in range(150 if q else 1500):
             pre = [] if rng.random() < 0.7 else [rng.randrange(256) for _ in range(rng.randrange(1, 9))]
             cases.append({'kind': 'mrt', 'pre': pre, 'msgs': [gen_mp(rng) for _ in range(rng.randrange(1, 5))]})
-        for k in range(6 if q else 40):
+        for k in range(4 if q else 40):
             cases.append({'kind': 'mrt', 'pre': [], 'msgs': [gen_mp(rng, big=True)]})
         # correspondence only: 2-octet AS form (never used by the daemon), local address of the other family
         for k in range(20 if q else 100):
@@ -671,11 +671,11 @@ class Prop:
                 m[0] = gen_mph(rng, mixed=True)
             cases.append({'kind': 'mrt', 'pre': [], 'msgs': [m], 'api_only': 1})
         # ---- TABLE_DUMP_V2
-        for k in range(250 if q else 2500):
+        for k in range(150 if q else 1500):
             pre = [] if rng.random() < 0.8 else [rng.randrange(256) for _ in range(rng.randrange(1, 9))]
             cases.append({'kind': 'td', 'pre': pre, 'recs': gen_td(rng)})
         # the u16 count boundaries (correspondence only beyond 65535)
-        for n in (65535, 65536, 65537):
+        for n in ((65535, 65536) if q else (65535, 65536, 65537)):
             peer = [[10, 0, 0, 1], [10, 0, 0, 1], 65001]
             ent = [0, 5, [], []]
             cases.append({'kind': 'td', 'pre': [], 'recs': [[7, [0, [1, 1, 1, 1], [-1, n, peer]]]], 'api_only': int(n > 65535), 'digest': 1})
@@ -685,24 +685,24 @@ class Prop:
             big = [[0, 1, 0], [1, 8, [-1, ln, 1]]]
             cases.append({'kind': 'td', 'pre': [], 'recs': [[7, [1, 1, [0, 8, [10, 0, 0, 0]], [[0, 1, [[10, 0, 0, 1]], big]]]]], 'api_only': api})
         # ---- daemon-side converters (hooks in daemon/src/bmp.rs, daemon/src/mrt.rs)
-        for k in range(120 if q else 1200):
+        for k in range(60 if q else 800):
             cases.append({'kind': 'dconv', 'change': gen_change(rng)})
-        for k in range(120 if q else 1200):
+        for k in range(80 if q else 800):
             v6 = rng.random() < 0.5
             fam = IPV6 if v6 else IPV4
             reach = rng.random() < 0.7
             cases.append({'kind': 'dloc', 'family': fam, 'net': gen_nlri(rng, v6), 'attrs': [pick(rng, ATTRSETS)] if reach else [],
                           'nexthop': gen_nexthop(rng, v6) if reach else [], 'ts': pick(rng, U32S),
                           'rid': pick(rng, V4S), 'asn': pick(rng, ASNS)})
-        for k in range(150 if q else 1500):
+        for k in range(100 if q else 800):
             peers = [pick(rng, SOURCES) for _ in range(2)]
             cs = [gen_change(rng, src=pick(rng, peers), small=True, n=pick(rng, [1, 1, 2])) for _ in range(rng.randrange(0, 9))]
             who = pick(rng, peers + [pick(rng, SOURCES)])
             cases.append({'kind': 'dflush', 'changes': cs, 'addr': who[0],
                           'hdr': [0, pick(rng, [0, 0x40]), who[2], who[4], 0, who[0], pick(rng, U32S)], 'flags': pick(rng, [0, 0x40])})
-        for k in range(120 if q else 1200):
+        for k in range(60 if q else 800):
             cases.append({'kind': 'dmrt', 'change': gen_change(rng)})
-        for k in range(120 if q else 1200):
+        for k in range(80 if q else 800):
             routes = []
             for _ in range(rng.randrange(0, 9)):
                 v6 = rng.random() < 0.5
